@@ -102,7 +102,10 @@ def levels_float(z32, ihmax):
     zp = (np.float64(zmax) - z.astype(np.float64)).astype(np.float32).astype(np.float64)
     x = zp * ((ihmax - 1.0) / (zmax - zmin))
     amb = bool(np.any(np.abs(x - np.floor(x) - 0.5) < 1e-9))
-    lev = np.clip(np.floor(x + 0.5), 0, ihmax - 1).astype(int)
+    # C's round(): half away from zero, decided on the double product itself (floor(x + 0.5) would round a product that is one
+    # ulp below .5 up, because the addition rounds)
+    fl = np.floor(x)
+    lev = np.clip(np.where(x - fl >= 0.5, fl + 1, fl), 0, ihmax - 1).astype(int)
     return lev, amb
 
 
@@ -602,6 +605,8 @@ def run_check():
         if st != "ok":
             ck.disagree("specpart", f"model error: {mo}", case)
         elif not c["exact_ok"]:
+            # the float level computation (C's double product and round(), emulated exactly) differs from the exact rational one,
+            # e.g. 49·(1/98) is one ulp below .5: not comparable with the exact-integer model
             ck.ambiguous += 1
         else:
             n_traces += 1
